@@ -7,9 +7,12 @@ from .. import core, e2e, genproj, proj, directed
 TASK_SCRIPT = """#!/bin/sh
 echo "$1 $2" >> "$LAZE_VERIF_TASK_LOG"
 case " $LAZE_VERIF_TASK_FAIL " in *" $1:$2 "*) exit 1;; esac
+# a task whose shell dies from a signal (no exit code) has failed like any other
+case " $LAZE_VERIF_TASK_KILL " in *" $1:$2 "*) kill -KILL $$;; esac
 exit 0
 """
-TASK_CMD = 'sh "$LAZE_VERIF_TASK_SCRIPT" ${builder} ${app}'
+# (sourced, so that the script runs in the very shell laze started for the task)
+TASK_CMD = 'set -- ${builder} ${app}; . "$LAZE_VERIF_TASK_SCRIPT"'
 
 def with_scripted_tasks(files, rng, force=False):
     """replace every task's commands by the logging script; optionally add tasks"""
@@ -17,7 +20,10 @@ def with_scripted_tasks(files, rng, force=False):
     def fix(tasks):
         for n, t in tasks.items():
             expr = any("$(" in c for c in t.get("cmd") or [])       # keep an expression over the task's required variables
-            t["cmd"] = [TASK_CMD + (" $(${PORT} + 1)" if expr else "")]; t.pop("export", None); t.pop("workdir", None); names.add(n)
+            t["cmd"] = [TASK_CMD + (" $(${PORT} + 1)" if expr else "")]; t.pop("workdir", None); names.add(n)
+            # exported variables are kept (they are part of what the cache stores per task); some tasks get a few more
+            if rng.random() < 0.5: t.pop("export", None)
+            elif rng.random() < 0.5: t["export"] = (t.get("export") or []) + ["X", {"TASK_VAR": "v-${builder}"}]
     for docs in f.values():
         for d in docs:
             for c in (d.get("contexts") or []) + (d.get("builders") or []):
@@ -56,7 +62,8 @@ def run_scenarios(laze, driver, items):
         tmpdir_files = {}
         seq = []
         for cli, sc in steps:
-            env = {"LAZE_VERIF_TASK_FAIL": " ".join("%s:%s" % x for x in sc.get("fail", []))}
+            pairs_ = " ".join("%s:%s" % tuple(x) for x in sc.get("fail", []))
+            env = {"LAZE_VERIF_TASK_FAIL": "" if sc.get("kill_tasks") else pairs_, "LAZE_VERIF_TASK_KILL": pairs_ if sc.get("kill_tasks") else ""}
             seq.append(dict(cli=cli, args=scenario_args(sc), generate_only=sc.get("generate_only", False), ninja_rc=sc.get("ninja_rc", 0), env=env, sc=sc))
         return item, run_seq_with_tasks(laze, files, seq)
     with ThreadPoolExecutor(core.NCPU) as ex:
